@@ -9,7 +9,7 @@ TRUSTED_BASE = [
     "assumed about code outside the crate: rand (shuffle is a permutation, choose/random_range < n: validated dynamically per draw), alloc BinaryHeap (pops a maximal element: validated per datagram by the fill oracle), bytes::Limit, serde derive field order, postcard/bincode wire formats (checked byte for byte by correspondence)",
 ]
 
-Q = {"corr_cases": 20000, "search": 400000}
+Q = {"corr_cases": 60000, "search": 1200000}
 T = {"corr_cases": 400000, "search": 12000000}
 
 
